@@ -25,11 +25,11 @@ class Config:
                 "-ftemplate-backtrace-limit=0"]
         if self.is_clang:
             base += ["-ferror-limit=0", "-fno-caret-diagnostics", "-fno-color-diagnostics",
-                     "-fconstexpr-steps=100000000", "-fconstexpr-depth=4096",
+                     "-fconstexpr-steps=%d" % CLANG_STEPS, "-fconstexpr-depth=4096",
                      "-Wno-unused-value"]
         else:
             base += ["-fmax-errors=0", "-fno-diagnostics-show-caret", "-fdiagnostics-color=never",
-                     "-fmessage-length=0", "-Werror=narrowing", "-fconstexpr-ops-limit=1000000000",
+                     "-fmessage-length=0", "-Werror=narrowing", "-fconstexpr-ops-limit=%d" % GCC_OPS,
                      "-fconstexpr-loop-limit=10000000", "-fconstexpr-depth=4096"]
         return base + list(extra) + [src]
 
@@ -47,7 +47,16 @@ def configs_for(tier):
     return ALL_CONFIGS if tier == "thorough" else QUICK_CONFIGS
 
 
+# budget of the compilers' constant evaluators (a check that evaluates library loops at compile
+# time lowers these, so that a loop which no longer terminates is an error and not a 12 GB process)
+CLANG_STEPS = 100000000
+GCC_OPS = 1000000000
+_PRLIMIT = ["prlimit", "--as=%d" % (20 << 30)] if os.path.exists("/usr/bin/prlimit") else []
+
+
 def run(cmd, timeout=1800, cwd=None, input=None):
+    if cmd and os.path.basename(cmd[0]) in ("g++", "clang++", "opt-14", "llvm-link-14"):
+        cmd = _PRLIMIT + list(cmd)
     try:
         p = subprocess.run(cmd, stdout=subprocess.PIPE, stderr=subprocess.PIPE, timeout=timeout,
                            cwd=cwd, input=input)
